@@ -101,8 +101,7 @@ Definition ref_env := mkEnv ref_save ref_rbto ref_pool.
 (* flags describing where the run left the domain of the atomicity statement *)
 Record flags := mkFl {
   x_rb : bool;     (* a fault hit the ROLLBACK TO a failing nested block issues *)
-  x_drop : bool;   (* the dialector dropped the error of a SAVEPOINT / ROLLBACK TO *)
-  x_spign : bool   (* a nested block's SAVEPOINT failed and the enclosing function went on *)
+  x_drop : bool    (* the dialector dropped the error of a SAVEPOINT / ROLLBACK TO *)
 }.
 
 Record st := mkSt {
@@ -114,16 +113,15 @@ Record st := mkSt {
   s_fl : flags
 }.
 
-Definition init_st (db : tbl) : st := mkSt db None [] 0 [] (mkFl false false false).
+Definition init_st (db : tbl) : st := mkSt db None [] 0 [] (mkFl false false).
 
 Definition set_tx (s : st) (t : option txs) := mkSt (s_db s) t (s_ops s) (s_gen s) (s_txlog s) (s_fl s).
 Definition set_db (s : st) (d : tbl) := mkSt d (s_tx s) (s_ops s) (s_gen s) (s_txlog s) (s_fl s).
 Definition set_fl (s : st) (f : flags) := mkSt (s_db s) (s_tx s) (s_ops s) (s_gen s) (s_txlog s) f.
 Definition log_tx (s : st) (c : txcall) := mkSt (s_db s) (s_tx s) (s_ops s) (s_gen s) (c :: s_txlog s) (s_fl s).
 Definition next_gen (s : st) := mkSt (s_db s) (s_tx s) (s_ops s) (S (s_gen s)) (s_txlog s) (s_fl s).
-Definition flag_rb (s : st) := set_fl s (mkFl true (x_drop (s_fl s)) (x_spign (s_fl s))).
-Definition flag_drop (s : st) := set_fl s (mkFl (x_rb (s_fl s)) true (x_spign (s_fl s))).
-Definition flag_spign (s : st) := set_fl s (mkFl (x_rb (s_fl s)) (x_drop (s_fl s)) true).
+Definition flag_rb (s : st) := set_fl s (mkFl true (x_drop (s_fl s))).
+Definition flag_drop (s : st) := set_fl s (mkFl (x_rb (s_fl s)) true).
 
 Definition fault_err := mkErr EFault false.
 Definition cls_oe (e : option err) : cls := match e with None => CNil | Some e' => CErr e' end.
@@ -209,7 +207,9 @@ Definition tx_end (commit : bool) (s : st) : option err * st :=
 Definition h_end (commit : bool) (h : option err) (s : st) : option err * st :=
   let '(d, s1) := tx_end commit s in (add_error h d, s1).
 
-(* DB.Transaction, nested branch (ConnPool is a TxCommitter) *)
+(* DB.Transaction, nested branch (ConnPool is a TxCommitter).  SavePoint / RollbackTo are
+   called on db.Session(&Session{}): a copy of the handle (it starts with the handle's Error),
+   so what they add stays on the copy and the enclosing handle h is returned unchanged *)
 Definition nested (body : option err -> st -> res * list obs * option err * st)
                   (h : option err) (s : st) : res * obs * option err * st :=
   if c_nonest C then
@@ -217,17 +217,18 @@ Definition nested (body : option err -> st -> res * list obs * option err * st)
     (r, OC true l (cls_of r) (cls_of r), h, s1)
   else
     let name := NGen (s_gen s) in
-    let '(h1, s1) := h_sp true name h (next_gen s) in      (* err = db.SavePoint(name).Error *)
+    (* err = db.Session(&Session{}).SavePoint(name).Error *)
+    let '(h1, s1) := h_sp true name h (next_gen s) in
     match h1 with
-    | Some e => (RErr e, OC false [] CNil (CErr e), h1, s1)    (* if err != nil { return } *)
+    | Some e => (RErr e, OC false [] CNil (CErr e), h, s1)    (* if err != nil { return } *)
     | None =>
-      let '(r, l, _, s2) := body h1 s1 in
+      let '(r, l, _, s2) := body h s1 in
       match r with
-      | ROk => (ROk, OC true l CNil CNil, h1, s2)
-      | _ =>  (* deferred: if panicked || err != nil { db.RollbackTo(name) }, result dropped *)
+      | ROk => (ROk, OC true l CNil CNil, h, s2)
+      | _ =>  (* deferred: if panicked || err != nil { db.Session(&Session{}).RollbackTo(name) } *)
         let s2' := if fault (length (s_ops s2)) then flag_rb s2 else s2 in
-        let '(h2, s3) := h_sp false name h1 s2' in
-        (r, OC true l (cls_of r) (cls_of r), h2, s3)
+        let '(_, s3) := h_sp false name h s2' in
+        (r, OC true l (cls_of r) (cls_of r), h, s3)
       end
     end.
 
@@ -256,9 +257,7 @@ Fixpoint run_body (p : prog) (h : option err) (s : st) : res * list obs * option
     | ROk => let '(r', l, h2, s2) := run_body k h1 s1 in (r', o :: l, h2, s2)
     | RErr e =>
       if chk then (RErr e, [o], h1, s1)
-      else
-        let s1' := match o with OC false _ _ _ => flag_spign s1 | _ => s1 end in
-        let '(r', l, h2, s2) := run_body k h1 s1' in (r', o :: l, h2, s2)
+      else let '(r', l, h2, s2) := run_body k h1 s1 in (r', o :: l, h2, s2)
     | RPan p =>
       if rcv then let '(r', l, h2, s2) := run_body k h1 s1 in (r', o :: l, h2, s2)
       else (RPan p, [o], h1, s1)
